@@ -194,6 +194,7 @@ func (m *vfMQ) event(ns, name string, payload []byte) bool {
 
 type vfClient struct {
 	lagging bool // the scheduler does not run this connection's worker
+	release chan struct{}
 	c       *wsConn
 	sink    *vfSink
 	seen    int
@@ -330,6 +331,25 @@ func (w *vfWorld) connect(cid string, protocol int) *vfClient {
 	}
 	w.clients = append(w.clients, cl)
 	return cl
+}
+
+// lag makes the connection's worker busy (on) or lets it go on (off). Under
+// the engine the scheduler simply does not run it; natively a worker goroutine
+// may already be parked on the queue, so it is held by a blocking callback.
+func (w *vfWorld) lag(cl *vfClient, on bool) {
+	cl.lagging = on
+	if zzvf.Symbolic() {
+		return
+	}
+	if on {
+		release := make(chan struct{})
+		cl.release = release
+		cl.c.Enqueue(func() { <-release })
+		time.Sleep(time.Millisecond)
+	} else if cl.release != nil {
+		close(cl.release)
+		cl.release = nil
+	}
 }
 
 // ---- scheduler primitives
